@@ -186,6 +186,8 @@ func purgeReplay(args []string) error {
 		switch {
 		case c.Crash != 99:
 			class = "crash-resume"
+		case strings.HasPrefix(c.BuildFault, "rootget"):
+			class = "scan-read-fault"
 		case c.BuildFault != "none":
 			class = "chunk-write-fault"
 		case c.DeleteFault != "none":
@@ -252,6 +254,13 @@ func purgeReplay(args []string) error {
 						return true
 					}
 					return false
+				}
+			case "rootget1", "rootget2":
+				// a transient failure of a read of a root blob while the bundles are scanned
+				ctl.FaultStore, ctl.FaultOp = "blob", "get"
+				ctl.FaultAt = 1
+				if fault == "rootget2" {
+					ctl.FaultAt = 2
 				}
 			case "chunkput1", "chunkput2":
 				ctl.FaultStore, ctl.FaultOp, ctl.FaultBytes = "meta", "put", 1<<20
